@@ -530,6 +530,8 @@ def run(tier, only=None):
     rec_meta = []
     # the recoders of every curve are cheap: posed in both tiers (the loops of the other curves stay in the thorough tier)
     for c in (names if only else list(ROUTINES)):
+        if tier == "quick" and not only and c == "ed448" and c not in names:
+            continue          # 225-digit recoder: close to the quick tier's worker cap under load; posed in the thorough tier
         for fn, spec in NAFS.get(c, {}).items():
             if fsel and fn not in fsel:
                 continue
